@@ -13,7 +13,8 @@ def engines : List (String × (List String → String)) := [
   ("url", Wpull.Url.handle),
   ("filter", Wpull.Filter.handle),
   ("warc", Wpull.Warc.handle),
-  ("request", Wpull.Request.handle)
+  ("request", Wpull.Request.handle),
+  ("warcwrite", Wpull.WarcWrite.handle)
 ]
 
 def handle (line : String) : String :=
